@@ -610,7 +610,24 @@ def mergeDS : Heap → DS → KVs → Heap × DS
     | _ => (h, .leaf (.ref a))
   | h, ds, _ :: _ => (h, ds)
 
-/-- `deep_merge(daughter_state, daughter.get('initial_state', {}))` -/
+mutual
+/-- `deep_copy_internal(daughter_state)`: the dictionaries of the divided state are copied, every
+other value is shared — a dictionary-valued variable that the divider handed to both daughters as
+one object becomes this daughter's own (fix 8fe5c41) -/
+def copyDictsDS (h : Heap) : DS → DS
+  | .leaf (.ref a) =>
+    match h.getD a .none with
+    | .dict kvs => .leaf (.own (.dict kvs))
+    | _ => .leaf (.ref a)
+  | .leaf v => .leaf v
+  | .node kvs => .node (copyDictsKids h kvs)
+def copyDictsKids (h : Heap) : List (String × DS) → List (String × DS)
+  | [] => []
+  | (k, d) :: rest => (k, copyDictsDS h d) :: copyDictsKids h rest
+end
+
+/-- `deep_merge(daughter_state, daughter.get('initial_state', {}))`; a non-empty explicit state is
+merged into a copy of the divided state -/
 def mergeInitial (h : Heap) (ds : DS) (init : Val) : Except Err (Heap × DS) :=
   let ds' : DS :=
     match ds with
@@ -619,7 +636,8 @@ def mergeInitial (h : Heap) (ds : DS) (init : Val) : Except Err (Heap × DS) :=
   match init with
   | .none => .ok (h, ds')
   | .dict [] => .ok (h, ds')
-  | .dict m => if ds'.isDictLike h then .ok (mergeDS h ds' m) else .error .typeError
+  | .dict m =>
+    if ds'.isDictLike h then .ok (mergeDS h (copyDictsDS h ds') m) else .error .typeError
   | _ => .error .attributeError
 
 /-- a nested dict of process tags `{"__proc__": {"pid", "ports", "topo"}}` -/
